@@ -164,6 +164,7 @@ Definition accounted : list acct := [
   mkacct "ach.File.createFileADV" "batch.GetADVControl().TotalDebitEntryDollarAmount" "ops-model: create_file_adv (TotalOps/TotalJson) dereferences this pointer; no panic on well-formed shapes (C06_ops_total_partial / C06_json_total_partial / C06_handlers_total_partial), panic reproduced on the others (correspondence c06ops)";
   mkacct "ach.File.createFileADV" "batch.GetADVControl().TotalCreditEntryDollarAmount" "ops-model: create_file_adv (TotalOps/TotalJson) dereferences this pointer; no panic on well-formed shapes (C06_ops_total_partial / C06_json_total_partial / C06_handlers_total_partial), panic reproduced on the others (correspondence c06ops)";
   mkacct "ach.File.isSequenceAscending" "batch.GetHeader().BatchNumber" "ops-model: file_sequence_ascending (TotalOps/TotalJson) dereferences this pointer; no panic on well-formed shapes (C06_ops_total_partial / C06_json_total_partial / C06_handlers_total_partial), panic reproduced on the others (correspondence c06ops)";
+  mkacct "ach.convertToFiles" "batch.GetHeader().SetValidation" "nil-safe: method call on a possibly nil pointer whose method starts with `if recv == nil { return }` (Gen/OpSites.nil_safe_methods); the receiver is the header NewBatch installed two statements above";
   mkacct "ach.Flatten" "originalBatches[i]" "sort-less: index parameters of the less function of sort.Slice over the same value (contract of package sort); the other occurrence is the key of `for i := range` over the same value";
   mkacct "ach.Flatten" "originalBatches[j]" "sort-less: index parameters of the less function of sort.Slice over the same value (contract of package sort)";
   mkacct "ach.Flatten" "newBatchesByHeader[batch.GetHeaderSignature()]" "map: the operand is a map (map[string][]mergeable); a map lookup never panics (Gen/OpSites)";
